@@ -33,35 +33,38 @@ Obs ==
         LET x == Ev.ids[i] IN
           IF x.id = -1 THEN x.w \notin DOMAIN ids' ELSE x.w \in DOMAIN ids' /\ ids'[x.w] = x.id
   /\ \A i \in 1..Len(Ev.rec) : Ev.rec[i].ok = RecoverableIn(CurP, Ev.rec[i].w)
+  /\ Ev.jr = IF jr'.has THEN [has |-> TRUE, base |-> jr'.base, disk |-> jr'.disk, n |-> Len(jr'.chain)]
+                        ELSE [has |-> FALSE]
 
 TReset ==
   Step(/\ Ev.op = "reset"
-       /\ cfg' = Ev.cfg
+       /\ cfg' = [maxDiff |-> Ev.cfg.maxDiff, histLimit |-> Ev.cfg.histLimit, pol |-> "any", async |-> Ev.cfg.async]
        /\ chain' = <<>>
        /\ disk' = [root |-> [k \in 1..Ev.nk |-> 0], id |-> 0]
        /\ buf' = [k \in 1..Ev.nk |-> NoVal] /\ bufN' = 0
        /\ kv' = [world |-> [k \in 1..Ev.nk |-> 0], pid |-> 0]
        /\ ids' = <<>>
        /\ hist' = [tail |-> 0, head |-> 0, recs |-> <<>>]
+       /\ jr' = NoJournal
        /\ zombies' = {}
        /\ res' = [op |-> "init"]
        /\ Obs)
 
 TUpdate  == Step(/\ Ev.op = "Update"
-                 /\ \E fs \in {<<>>, <<TRUE>>, <<FALSE>>} : UpdateTo(Ev.j, Ev.d, fs)
+                 /\ \E n \in 0..1 : \E fs \in Flags(n) : UpdateTo(Ev.j, Ev.d, fs)
                  /\ res'.r = Ev.res
                  /\ Obs)
-TCommit  == Step(Ev.op = "Commit" /\ CommitAt(Ev.i) /\ res'.r = Ev.res /\ Obs)
+TCommit  == Step(Ev.op = "Commit" /\ (\E sts \in Stales(Ev.i) : CommitAt(Ev.i, sts)) /\ res'.r = Ev.res /\ Obs)
 TRecover == Step(Ev.op = "Recover" /\ RecoverTo(Ev.w) /\ res'.ok = Ev.ok /\ Obs)
 TReopen  == Step(Ev.op = "Reopen" /\ Reopen(Ev.i) /\ Obs)
-TRestart == Step(Ev.op = "Restart" /\ Restart /\ Obs)
+TRestart == Step(Ev.op = "Restart" /\ Restart /\ res'.restored = Ev.restored /\ Obs)
 
 TraceInit == /\ l = 1
-             /\ cfg = [maxDiff |-> 1, histLimit |-> 0]
+             /\ cfg = [maxDiff |-> 1, histLimit |-> 0, pol |-> "any", async |-> FALSE]
              /\ chain = <<>> /\ disk = [root |-> <<>>, id |-> 0] /\ buf = <<>> /\ bufN = 0
              /\ kv = [world |-> <<>>, pid |-> 0] /\ ids = <<>>
              /\ hist = [tail |-> 0, head |-> 0, recs |-> <<>>]
-             /\ zombies = {} /\ res = [op |-> "init"]
+             /\ jr = NoJournal /\ zombies = {} /\ res = [op |-> "init"]
 TraceNext == TReset \/ TUpdate \/ TCommit \/ TRecover \/ TReopen \/ TRestart
 TraceSpec == TraceInit /\ [][TraceNext]_<<vars, l>>
 
